@@ -245,6 +245,15 @@ func implEval(src string, data *GV) string {
 	return first
 }
 
+// dataKept: the map handed to the API equals a fresh realisation of the same value afterwards
+func dataKept(gv *GV, dm map[string]any) bool {
+	if gv == nil || gv.hasOther() {
+		return true
+	}
+	fresh := gv.DataMap()
+	return reflect.DeepEqual(dm, fresh) || fmt.Sprintf("%#v", dm) == fmt.Sprintf("%#v", fresh)
+}
+
 func implEvalOnce(src string, data *GV) string {
 	textwire.VerifReset()
 	dm := data.DataMap()
@@ -516,7 +525,12 @@ func implOp(op *term, tpl **textwire.Template, cwd string) string {
 		if *tpl == nil {
 			return "NOTPL"
 		}
-		out, ferr := (*tpl).String(unhx(a[0].atom), termToGV(a[1]).DataMap())
+		gv := termToGV(a[1])
+		dm := gv.DataMap()
+		out, ferr := (*tpl).String(unhx(a[0].atom), dm)
+		if !dataKept(gv, dm) {
+			return "MUTATED the data map was modified by String"
+		}
 		if ferr != nil {
 			if out != "" {
 				return "OUTPUT-WITH-ERROR " + hx(out)
@@ -529,7 +543,12 @@ func implOp(op *term, tpl **textwire.Template, cwd string) string {
 			return "NOTPL"
 		}
 		rec := httptest.NewRecorder()
-		err := (*tpl).Response(rec, unhx(a[0].atom), termToGV(a[1]).DataMap())
+		gv := termToGV(a[1])
+		dm := gv.DataMap()
+		err := (*tpl).Response(rec, unhx(a[0].atom), dm)
+		if !dataKept(gv, dm) {
+			return "MUTATED the data map was modified by Response"
+		}
 		e := "nil"
 		if err != nil {
 			e = canonErr(err.Error(), cwd)
@@ -548,7 +567,12 @@ func implOp(op *term, tpl **textwire.Template, cwd string) string {
 		}
 		return "RESP " + hxOut(body) + " " + e
 	case "EVS":
-		out, err := textwire.EvaluateString(unhx(a[0].atom), termToGV(a[1]).DataMap())
+		gv := termToGV(a[1])
+		dm := gv.DataMap()
+		out, err := textwire.EvaluateString(unhx(a[0].atom), dm)
+		if !dataKept(gv, dm) {
+			return "MUTATED the data map was modified by EvaluateString"
+		}
 		if err != nil {
 			return canonErr(err.Error(), cwd)
 		}
